@@ -104,6 +104,18 @@ def run(ctx, replay=None):
                 ctx.known("sig=%s %s" % (SIG, [x for x in known if x["sig"] == SIG][0]["what"]))
             else:
                 ctx.violation({"property": "C18", "what": "UPF unresponsive with an unknown blocking pattern: %s" % sites, "case": c, "result": o})
+    # one event at a time to the real periodic server, nothing else until it has been served: a lost wake-up shows as a stall
+    rounds = 40000 if ctx.tier == "quick" else 600000
+    pp, plog = common.run_harness(ctx, info["harness"], "perio_pingpong", {"rounds": rounds, "timeout_ms": 1500}, timeout=600, tag="-pp")
+    if pp is None:
+        ctx.violation({"property": "C18", "broken": "ping-pong probe failed: " + plog[-800:]}, no_input=True)
+    else:
+        results.append({"case": {"sessions": 0, "pingpong_rounds": rounds}, "result": pp, "expected": "all rounds served"})
+        coverage["pingpong_rounds"] = pp.get("rounds")
+        if pp.get("error") or pp.get("stuck_at", -1) >= 0:
+            ctx.violation({"property": "C18", "what": "the periodic server did not serve an event that was queued for it (round %s of a one-event-at-a-time "
+                           "exchange, %s event(s) waiting, nothing else posted): it sleeps with work pending" % (pp.get("stuck_at"), pp.get("queued")),
+                           "case": {"mode": "perio_pingpong", "rounds": rounds, "timeout_ms": 1500}, "result": pp})
     coverage["evaluations"] = len(results)
     coverage["distinct_nontrivial"] = len({r["case"]["sessions"] for r in results if r["case"]["sessions"] >= 100})
     coverage["samples"] = results[:3]
